@@ -86,6 +86,8 @@ def drive(tier):
 def run(tier):
     rep = Report("C15", tier)
     rep.add_mc("MC_Merkle", vlib.run_mc("MC_Merkle", workers=4))
+    import replay_merkle
+    replay_merkle.replay(rep, tier)            # specification -> code: roots of 1..300 concrete leaves
     recs, nsecond, ndiff = vlib.second_pass(drive, tier)
     rep.cov["second_pass_calls"], rep.cov["second_pass_differing"] = nsecond, ndiff
     mm = vlib.validate("Trace_Checks", recs)
@@ -103,4 +105,8 @@ def run(tier):
 
 
 def replay(path):
+    d_ = json.load(open(path))
+    if d_["record"].get("op") == "merkle.replay":
+        import replay_merkle
+        return replay_merkle.replay_record(d_)
     return vlib.replay_file("Trace_Checks", path)
